@@ -12,7 +12,7 @@
                                                      loader drops it (the failing class)
      visible_rows m t0 t1 cs                         all rows but the lost ones
      time_mode m                                     m = FC \/ m = Touching *)
-From SV Require Import Model.Rows Model.Chunk Model.Selection Proof.SelectionProof.
+From SV Require Import Model.Rows Model.Chunk Model.Selection Proof.SelectionProof Proof.SelectionMultiProof.
 
 (* The full-strength statement: for every continuous well-formed on-disk chunking, every range,
    both modes, every row predicate and every keep / drop column set, loading with the range gives
@@ -148,3 +148,29 @@ Theorem C10_multi_target_witness :
     Ok (pair_fields, [[4; 6; 1; 1; 101; 11]; [13; 15; 2; 0; 102; 10]]).
 Proof. exact multi_target_witness. Qed.
 Print Assumptions C10_multi_target_witness.
+
+(* The part of the multi-target statement that does hold: two same-kind targets stored with
+   identical chunk boundaries (both streams are relabelings, by time-preserving maps fa / fb, of one
+   stream cz of positive-length chunks), a proper range t0 < t1, no selected row lost: the merged
+   request returns the selection of the merged full result. Plugin.iter then merges chunk by chunk
+   (lemma iter_merge_aligned) and the straddled right edge is harmless. *)
+Theorem C10_multi_target_commutes_partial : forall (fa fb : row -> row) (dta dtb : Z),
+  (forall r, rt (fa r) = rt r) -> (forall r, re (fa r) = re r) ->
+  (forall r, rt (fb r) = rt r) -> (forall r, re (fb r) = re r) ->
+  forall cz t0 t1 m p keep drop,
+    time_mode m -> t0 < t1 -> Forall wf cz -> contig cz -> Forall (fun c => cstart c < cend c) cz ->
+    no_lost_row m t0 t1 (fun r => p (pairof fa fb r)) cz ->
+    get_array2_abs (map (relabel fa dta) cz) (map (relabel fb dtb) cz) (Some (t0, t1)) m p keep drop =
+    if forallb (pruned t0 t1) cz then Err E_EMPTY_INPUT
+    else select_full2 (map (relabel fa dta) cz) (map (relabel fb dtb) cz) (Some (t0, t1)) m p keep drop.
+Proof. exact multi_target_commutes_partial. Qed.
+Print Assumptions C10_multi_target_commutes_partial.
+
+(* Never shifted or invented data: whatever a ranged request returns is a sub-sequence (same order,
+   same values, same columns) of the selection of the full result -- also when rows are lost. *)
+Theorem C10_selection_never_invents : forall cs t0 t1 m p keep drop fs out,
+  time_mode m -> Forall wf cs -> contig cs ->
+  get_array_abs cs (Some (t0, t1)) m p keep drop = Ok (fs, out) ->
+  exists out', select_full cs (Some (t0, t1)) m p keep drop = Ok (fs, out') /\ sublist out out'.
+Proof. exact selection_never_invents. Qed.
+Print Assumptions C10_selection_never_invents.
